@@ -78,6 +78,10 @@ func rdText(class, owner string, j, n int) rdLine {
 		t = fmt.Sprintf("世界 é ü 😀 %d/%d", j, n)
 	case "blank":
 		t = ""
+	case "colon":
+		t = fmt.Sprintf("host:port is where %d/%d listens", j, n)
+	case "goword":
+		t = fmt.Sprintf("go: the game, not a directive %d/%d", j, n)
 	case "namefirst":
 		l := rdLine{Class: class, Text: fmt.Sprintf("%s is the type, line %d.", owner, n)}
 		l.Stripped = strings.TrimSpace(strings.TrimPrefix(l.Text, owner))
@@ -431,7 +435,7 @@ func rdModule(from, to, perPkg int, concs []rdConc, obsOf []map[string]any) erro
 }
 
 func (runtimedocFam) Rand(n int, rng *rand.Rand, emit func(cas any)) error {
-	classes := []string{"plain", "quotes", "backslash", "backquote", "percent", "atname", "unicode", "namefirst", "namedouble", "tagplus", "tagat"}
+	classes := []string{"plain", "quotes", "backslash", "backquote", "percent", "atname", "unicode", "namefirst", "namedouble", "tagplus", "tagat", "colon", "goword"}
 	doc := func(maxLen int, allowName bool) []string {
 		ln := 3 + rng.IntN(maxLen-2)
 		out := []string{}
